@@ -4,7 +4,7 @@ Parts
   einfo     generated exception type / args / traceback depth (1..400 frames
             and unbounded recursion) -> ``ExceptionInfo()`` built inside the
             handler exactly like the worker loop does -> k pickle round trips;
-            oracle on type, args, traceback text, format_exception/format_tb,
+            oracle on type, args, traceback text, extract_tb/format_exception,
             bounded depth + truncation marker, round-trip stability, and a
             differential comparison with the real traceback
   workloop  the real ``Worker.workloop`` in-process (engines/workerloop.py)
@@ -59,9 +59,18 @@ ASSUMPTIONS = [
     'MaybeEncodingError.args are not compared (they are re-repr()ed by every '
     'unpickling - reported as a finding); the generator sets enc_args=False '
     'and the skipped comparisons are counted under excluded_by_construction',
-    'mutants: cut-no-marker, drop-cause, code-name-lost, lineno-off, '
-    'enc-error-not-sent, enc-error-wrong-type, einfo-type-from-wrapper '
-    '(see mutants/C12-*.patch)',
+    'the traceback module is asked to extract_tb + format_exception at the '
+    'first and the last stage of every record; between stages extract_tb '
+    'results are compared without the source text (files of the repo may be '
+    'edited while a run is in progress) and every entry is fingerprinted '
+    '(tb_lasti, f_lineno, co_firstlineno, co_qualname, co_positions, '
+    'f_globals)',
+    'mutants (all killed in the quick tier): cut-no-marker, no-frame-limit, '
+    'drop-cause, lineno-from-frame, text-from-truncated, positions-iterator '
+    '(einfo.py); enc-error-not-sent, enc-error-wrong-type, '
+    'enc-error-wrong-value, base-exc-escapes (pool.py workloop)',
+    'the real-pool (E3) variant named in the plan for the thorough tier is '
+    'not part of this module',
 ]
 SHARDS = {'quick': 4, 'thorough': 16}
 
@@ -671,7 +680,7 @@ def run(ctx):
         return wrapped
 
     ctx.explore('einfo', einfo_cases(), collect(execute_einfo),
-                n=ctx.pick(500, 8000), shrink_budget=120)
+                n=ctx.pick(400, 8000), shrink_budget=120)
     ctx.explore('workloop', workloop_cases(ctx.pick(8, 14)),
-                collect(execute_workloop), n=ctx.pick(250, 3500),
+                collect(execute_workloop), n=ctx.pick(200, 3500),
                 shrink_budget=120)
